@@ -486,8 +486,6 @@ def build_frame(rows, cols, names, variant, rng):
     """variant: base | row_perm | labels_str | labels_shift | labels_cat | labels_cat_unobserved | names_int"""
     import pandas as pd
     rows = list(rows)
-    if variant == "row_perm":
-        rng.shuffle(rows)
     kind = {"labels_str": "str", "labels_shift": "shift", "labels_cat": "str", "labels_cat_unobserved": "str"}.get(variant, "int")
     maps = _label_maps(kind, cols, rows, rng)
     colorder = list(cols)
@@ -501,6 +499,13 @@ def build_frame(rows, cols, names, variant, rng):
                 cats = cats + ["never_seen"]
             rng.shuffle(cats)
             df[names[c]] = pd.Categorical(df[names[c]], categories=cats)
+    if variant == "row_perm":
+        # a permuted frame KEEPS its index labels (as df.sample(frac=1) or df.iloc[perm] do): labels != positions
+        perm = list(range(len(rows)))
+        rng.shuffle(perm)
+        df = df.iloc[perm]
+    elif variant != "base" and len(rows) and rng.random() < 0.5:
+        df.index = range(100, 100 + len(rows))      # a non-default index (e.g. after filtering a larger frame)
     return df
 
 
